@@ -36,6 +36,15 @@ def opFn (j : Json) : Except String Json := do
     let a0 ← argListStr j 0
     let a1 ← argStr j 1
     return Json.mkObj [("r", jstr (Pinned.Funcs.address_resolve a0 a1))]
+  if name == "fix_whitespace" then
+    let a0 ← argStr j 0
+    return Json.mkObj [("r", jstr (Pinned.Funcs.fix_whitespace a0))]
+  if name == "make_private" then
+    let a0 ← argStr j 0
+    return Json.mkObj [("r", jstr (Pinned.Funcs.make_private a0))]
+  if name == "coerce_response_name" then
+    let a0 ← argStr j 0
+    return Json.mkObj [("r", jstr (Pinned.Funcs.coerce_response_name a0))]
   throw s!"unknown translated function {name}"
 
 def opsFuncs : List (String × (Json → Except String Json)) := [("fn", opFn)]
